@@ -446,8 +446,9 @@ static void experiment(FILE *lf, int kind, int w, int off, int nloc, int iters, 
 /* ------------------------------------------------------------------ store-buffering litmus */
 static struct lvar sb_x, sb_y, sb_z[2], sb_r[2];
 static long sb_iters; static int sb_op;
-enum { SB_NONE, SB_XCHG, SB_CMPXCHG, SB_ADDRET, SB_SUBRET, SB_NOPS };
-static const char *sbname[] = { "none", "xchg", "cmpxchg", "add_return", "sub_return" };
+enum { SB_NONE, SB_XCHG, SB_CMPXCHG, SB_ADDRET, SB_SUBRET, SB_NOPS, SB_ADDRET0 = SB_NOPS, SB_SUBRET0, SB_NOPS_ALL };
+static const char *sbname[] = { "none", "xchg", "cmpxchg", "add_return", "sub_return", "add_return0", "sub_return0" };
+static volatile int sb_zero;	/* run-time operand 0: add_return / sub_return must be full barriers for EVERY operand value */
 static long sb_cnt[4];
 
 static void *sb_thread(void *arg)
@@ -464,7 +465,9 @@ static void *sb_thread(void *arg)
 		case SB_XCHG:    CMM_STORE_SHARED(*mine, 1); (void) uatomic_xchg(z, (int) i); r = CMM_LOAD_SHARED(*other); break;
 		case SB_CMPXCHG: { int o = *z; CMM_STORE_SHARED(*mine, 1); if (uatomic_cmpxchg(z, o, o + 1) != o) abort(); r = CMM_LOAD_SHARED(*other); break; }
 		case SB_ADDRET:  CMM_STORE_SHARED(*mine, 1); (void) uatomic_add_return(z, 3); r = CMM_LOAD_SHARED(*other); break;
-		default:         CMM_STORE_SHARED(*mine, 1); (void) uatomic_sub_return(z, 5); r = CMM_LOAD_SHARED(*other); break;
+		case SB_SUBRET:  CMM_STORE_SHARED(*mine, 1); (void) uatomic_sub_return(z, 5); r = CMM_LOAD_SHARED(*other); break;
+		case SB_ADDRET0: { int zero = sb_zero; CMM_STORE_SHARED(*mine, 1); (void) uatomic_add_return(z, zero); r = CMM_LOAD_SHARED(*other); break; }
+		default:         { int zero = sb_zero; CMM_STORE_SHARED(*mine, 1); (void) uatomic_sub_return(z, zero); r = CMM_LOAD_SHARED(*other); break; }
 		}
 		sb_r[me].v = r;
 		bar_wait(2, &sense);
@@ -617,7 +620,7 @@ static int run_hammer(uint64_t seed, const char *lpath, int scale)
 		experiment(lf, K_XTOK, w, off, nloc, 50001 * scale, 0, init, dd);
 	}
 	/* store buffering */
-	for (int op = 0; op < SB_NOPS; op++) litmus(lf, op, 300000L * scale);
+	for (int op = 0; op < SB_NOPS_ALL; op++) litmus(lf, op, 300000L * scale);
 	fclose(lf);
 	printf("HAMMER impl=%s done cpus=%d\n", IMPL, ncpus_allowed);
 	return 0;
